@@ -101,14 +101,16 @@ PReading(api, a, rep) ==
     IN IF fit = {} THEN 0 ELSE CHOOSE k \in fit : \A j \in fit : k <= j
 
 \* r = [api, args, n, vn, err, rep, attrs = [npts, vnpts, xn, vxn, alias]]
-\*   attrs (class only): the attributes npts / vnpts, the lengths of the stored rules, and whether the
+\*   attrs (class only): the attributes npts / vnpts, the lengths of the stored rules xxi / vxxi (-2: the object has no
+\*   such attribute - they are not documented, so their absence is accepted, a wrong value is not), and whether the
 \*   documented alias cosmo.Distmod exists and is the method distmod
+PAttrOK(v, want) == v = want \/ v = -2
 PFailCtor(r) ==
     IF r.err # "none" THEN {"constructor_rejected"}
     ELSE PParamFails(r.api, r.args, r.rep) \cup
          (IF r.api # "class" THEN {}
-          ELSE (IF r.attrs.npts = PNpts(r.n) /\ r.attrs.xn = PNpts(r.n) THEN {} ELSE {"attr_npts"}) \cup
-               (IF r.attrs.vnpts = PVnpts(r.vn) /\ r.attrs.vxn = PVnpts(r.vn) THEN {} ELSE {"attr_vnpts"}) \cup
+          ELSE (IF PAttrOK(r.attrs.npts, PNpts(r.n)) /\ PAttrOK(r.attrs.xn, PNpts(r.n)) THEN {} ELSE {"attr_npts"}) \cup
+               (IF PAttrOK(r.attrs.vnpts, PVnpts(r.vn)) /\ PAttrOK(r.attrs.vxn, PVnpts(r.vn)) THEN {} ELSE {"attr_vnpts"}) \cup
                (IF r.attrs.alias THEN {} ELSE {"documented_alias_missing"}))
 
 \* ---- A1/A2/A6. the identities ---------------------------------------------------------------
@@ -135,8 +137,13 @@ PDcX(n, y)  == XMul(XDH, PIx(n, "esutil", "x", X0, y))
 PDmXCurv(n, y, k, fn) == XMul(XDiv(XDH, XSqrt(k)), <<fn, XMul(XSqrt(k), PIx(n, "esutil", "x", X0, y))>>)
 PVx(vn, dm(_)) == XGL(vn, "esutil", "y", XMul(XMul(XDH, XSq(dm(XVar("y")))), XEzX(XVar("y"))), XA, XB)
 PDimless(x, dh, k) == XDiv(x, IF k = 1 THEN dh ELSE XCube(dh))
+\* scale of the curved distances: rounding is relative to max(|Dm|, |Dc|) (a closed universe's sine may be near a zero)
+PDmScale(x, lo) == XMax(XAbs(PDimless(x, XDH, 1)), XAbs(PDimless(XDc(lo, XB), XDH, 1)))
 
-PChain == <<"dm_flat", "dm_sinh", "dm_sin", "dc", "gl", "da", "dv", "ezinv_b">>
+\* Dm(0, b) - the distance dV, V, distmod are built on - against Hogg's eq. 16, whatever zmin of the case is
+PCurvArg0(k) == XDiv(XMul(XSqrt(k), XDc(X0, XB)), XDH)
+PDm0 == <<"dm0_flat", "dm0_sinh", "dm0_sin">>
+PChain == <<"dm_flat", "dm_sinh", "dm_sin", "dc", "gl", "da", "dv", "ezinv_b">> \o PDm0
 PCatalogue(n, vn) == <<
   PIdent("dh", "DH", "eq", "ulp", XDH, XP("DH"), XDefaultScale, PNone, PNone),
   PFrom("ezinv_a", PNone), PFrom("ezinv_b", PNone),
@@ -146,8 +153,13 @@ PCatalogue(n, vn) == <<
   PIdent("gl_coarse", "Ezinv_integral", "eq", "ppb", XI(XA, XB), PIx(n, "exact", "x", XA, XB), XDefaultScale, PNone, <<"gl">>),
   PFrom("dc", PNone), PFrom("dm_flat", PNone), PFrom("dm_sinh", PNone), PFrom("dm_sin", PNone),
   PFrom("dm_open_gt_dc", <<"dm_sinh">>), PFrom("dm_closed_lt_dc", <<"dm_sin">>),
-  PFrom("hogg_add", <<"dm_flat", "dm_sinh", "dm_sin">>),
-  PFrom("da", PNone), PFrom("dl", PNone), PFrom("dv", PNone),
+  PIdent("dm0_flat", "Dm", "eq", "ulp", XDm(X0, XB), XDc(X0, XB), XDefaultScale, PNone, PNone),
+  PIdent("dm0_sinh", "Dm", "eq", "ulp", XDm(X0, XB), XMul(XDiv(XDH, XSqrt(XOK)), <<"sinh", PCurvArg0(XOK)>>),
+         XMax(XAbs(XDm(X0, XB)), XAbs(XDc(X0, XB))), PNone, PNone),
+  PIdent("dm0_sin", "Dm", "eq", "ulp", XDm(X0, XB), XMul(XDiv(XDH, XSqrt(XNeg(XOK))), <<"sin", PCurvArg0(XNeg(XOK))>>),
+         XMax(XAbs(XDm(X0, XB)), XAbs(XDc(X0, XB))), PNone, PNone),
+  PFrom("hogg_add", <<"dm_flat", "dm_sinh", "dm_sin">> \o PDm0),
+  PFrom("da", PNone), PFrom("dl", <<"da">>), PFrom("dv", PNone),
   \* V = the vnpts-point sum of the object's own dV, per steradian or over the full sky
   PIdent("glv", "V", "eq", "ulp", XQ2("V", XA, XB), POwn(vn, "esutil"), XDefaultScale, <<"glv_4pi", "glv_alt", "glv_alt_4pi">>, PNone),
   PIdent("glv_4pi", "V", "eq", "ulp", XQ2("V", XA, XB), XMul(X4Pi, POwn(vn, "esutil")), XDefaultScale, PNone, PNone),
@@ -156,11 +168,11 @@ PCatalogue(n, vn) == <<
   PIdent("glv_coarse", "V", "eq", "ppb", XQ2("V", XA, XB), POwn(vn, "exact"), XDefaultScale, <<"glv_coarse_4pi">>, <<"glv">>),
   PIdent("glv_coarse_4pi", "V", "eq", "ppb", XQ2("V", XA, XB), XMul(X4Pi, POwn(vn, "exact")), XDefaultScale, PNone, PNone),
   \* ... and of the volume element rebuilt from the exact 1/E by nested sums, per curvature class
-  PIdent("glvx_flat", "V", "eq", "ppb", XQ2("V", XA, XB), PVx(vn, LAMBDA y : PDcX(n, y)), XDefaultScale, <<"glvx_flat_4pi">>, PChain),
+  PIdent("glvx_flat", "V", "eq", "ppb", XQ2("V", XA, XB), PVx(vn, LAMBDA y : PDcX(n, y)), XDefaultScale, <<"glvx_flat_4pi">>, PChain \o <<"glv">>),
   PIdent("glvx_flat_4pi", "V", "eq", "ppb", XQ2("V", XA, XB), XMul(X4Pi, PVx(vn, LAMBDA y : PDcX(n, y))), XDefaultScale, PNone, PNone),
-  PIdent("glvx_open", "V", "eq", "ppb", XQ2("V", XA, XB), PVx(vn, LAMBDA y : PDmXCurv(n, y, XP("ok"), "sinh")), XDefaultScale, <<"glvx_open_4pi">>, PChain),
+  PIdent("glvx_open", "V", "eq", "ppb", XQ2("V", XA, XB), PVx(vn, LAMBDA y : PDmXCurv(n, y, XP("ok"), "sinh")), XDefaultScale, <<"glvx_open_4pi">>, PChain \o <<"glv">>),
   PIdent("glvx_open_4pi", "V", "eq", "ppb", XQ2("V", XA, XB), XMul(X4Pi, PVx(vn, LAMBDA y : PDmXCurv(n, y, XP("ok"), "sinh"))), XDefaultScale, PNone, PNone),
-  PIdent("glvx_closed", "V", "eq", "ppb", XQ2("V", XA, XB), PVx(vn, LAMBDA y : PDmXCurv(n, y, XNeg(XP("ok")), "sin")), XDefaultScale, <<"glvx_closed_4pi">>, PChain),
+  PIdent("glvx_closed", "V", "eq", "ppb", XQ2("V", XA, XB), PVx(vn, LAMBDA y : PDmXCurv(n, y, XNeg(XP("ok")), "sin")), XDefaultScale, <<"glvx_closed_4pi">>, PChain \o <<"glv">>),
   PIdent("glvx_closed_4pi", "V", "eq", "ppb", XQ2("V", XA, XB), XMul(X4Pi, PVx(vn, LAMBDA y : PDmXCurv(n, y, XNeg(XP("ok")), "sin"))), XDefaultScale, PNone, PNone),
   PFrom("distmod", PNone), PFrom("eds", <<"gl">>),
   \* lensing (class only): the constant is the module's own four_pi_G_over_c_squared("Mpc")
@@ -171,36 +183,42 @@ PCatalogue(n, vn) == <<
   PIdent("k_gpc", "four_pi_G_over_c_squared", "eq", "ulp", <<"v", "K_Gpc">>, XMul(XKv, <<"n", 1000, 1>>), XDefaultScale, PNone, PNone),
   \* A6: agreement with the C-backed class, in units of the own Hubble distance
   PIdent("x_dh", "DH", "eq", "ulp", XDH, XCDH, XDefaultScale, PNone, <<"dh">>),
-  PIdent("x_ezinv", "Ez_inverse", "eq", "ulp", XQ1("Ez_inverse", XB), XQ1("c_Ez_inverse", XB), XDefaultScale, PNone, <<"ezinv_b">>),
+  \* (as 1/Ez_inverse^2 = E^2 relative to the operand scale of E^2, like "ezinv_b": E^2 may be a small difference of large terms)
+  PIdent("x_ezinv", "Ez_inverse", "eq", "ulp", XDiv(X1, XSq(XQ1("Ez_inverse", XB))), XDiv(X1, XSq(XQ1("c_Ez_inverse", XB))), <<"d", "Sb">>, PNone, <<"ezinv_b">>),
   PIdent("x_int", "Ezinv_integral", "eq", "ppb", XI(XA, XB), XQ2("c_Ezinv_integral", XA, XB), XDefaultScale, PNone, <<"gl">>),
   PIdent("x_int_n", "Ezinv_integral", "eq", "ppb", XI(XA, XB), XQ2("c_Ezinv_integral", XA, XB), XDefaultScale, PNone, <<"gl">>),
   PIdent("x_dc", "Dc", "eq", "ppb", PDimless(XDc(XA, XB), XDH, 1), PDimless(XQ2("c_Dc", XA, XB), XCDH, 1), XDefaultScale, PNone, <<"x_int", "dc">>),
-  PIdent("x_dm", "Dm", "eq", "ppb", PDimless(XDm(XA, XB), XDH, 1), PDimless(XQ2("c_Dm", XA, XB), XCDH, 1), XDefaultScale, PNone, <<"x_dc", "dm_flat", "dm_sinh", "dm_sin">>),
-  PIdent("x_da", "Da", "eq", "ppb", PDimless(XDa(XA, XB), XDH, 1), PDimless(XQ2("c_Da", XA, XB), XCDH, 1), XDefaultScale, PNone, <<"x_dm", "da">>),
-  PIdent("x_dl", "Dl", "eq", "ppb", PDimless(XQ2("Dl", XA, XB), XDH, 1), PDimless(XQ2("c_Dl", XA, XB), XCDH, 1), XDefaultScale, PNone, <<"x_dm", "dl">>),
-  PIdent("x_dv", "dV", "eq", "ppb", PDimless(XQ1("dV", XB), XDH, 3), PDimless(XQ1("c_dV", XB), XCDH, 3), XDefaultScale, PNone, <<"x_da", "x_ezinv", "dv">>),
-  PIdent("x_v", "V", "eq", "ppb", PDimless(XQ2("V", XA, XB), XDH, 3), PDimless(XDiv(XQ2("c_V", XA, XB), X4Pi), XCDH, 3), XDefaultScale, <<"x_v_full">>, <<"x_dv", "glv">>),
+  PIdent("x_dm", "Dm", "eq", "ppb", PDimless(XDm(XA, XB), XDH, 1), PDimless(XQ2("c_Dm", XA, XB), XCDH, 1), PDmScale(XDm(XA, XB), XA), PNone, <<"x_dc", "dm_flat", "dm_sinh", "dm_sin">>),
+  PIdent("x_da", "Da", "eq", "ppb", PDimless(XDa(XA, XB), XDH, 1), PDimless(XQ2("c_Da", XA, XB), XCDH, 1), XDiv(PDmScale(XDm(XA, XB), XA), XAdd(X1, XB)), PNone, <<"x_dm", "da">>),
+  PIdent("x_dl", "Dl", "eq", "ppb", PDimless(XQ2("Dl", XA, XB), XDH, 1), PDimless(XQ2("c_Dl", XA, XB), XCDH, 1), XMul(PDmScale(XDm(XA, XB), XA), XAdd(X1, XB)), PNone, <<"x_dm", "dl">>),
+  PIdent("x_dm0", "Dm", "eq", "ppb", PDimless(XDm(X0, XB), XDH, 1), PDimless(XQ2("c_Dm", X0, XB), XCDH, 1), PDmScale(XDm(X0, XB), X0), PNone, <<"x_int", "dc">> \o PDm0),
+  PIdent("x_dv", "dV", "eq", "ppb", PDimless(XQ1("dV", XB), XDH, 3), PDimless(XQ1("c_dV", XB), XCDH, 3), XDefaultScale, PNone, <<"x_dm0", "x_ezinv", "dv", "da">> \o PDm0),
+  PIdent("x_v", "V", "eq", "ppb", PDimless(XQ2("V", XA, XB), XDH, 3), PDimless(XDiv(XQ2("c_V", XA, XB), X4Pi), XCDH, 3), XDefaultScale, <<"x_v_full">>, <<"x_dv", "x_dm0", "glv">> \o PDm0),
   PIdent("x_v_full", "V", "eq", "ppb", PDimless(XQ2("V", XA, XB), XDH, 3), PDimless(XQ2("c_V", XA, XB), XCDH, 3), XDefaultScale, PNone, PNone),
-  PIdent("x_distmod", "distmod", "eq", "ppb", XQ1("distmod", XB), XQ1("c_distmod", XB), XDefaultScale, PNone, <<"x_dl", "x_dh", "distmod">>),
+  PIdent("x_distmod", "distmod", "eq", "ppb", XQ1("distmod", XB), XQ1("c_distmod", XB), XDefaultScale, PNone, <<"x_dl", "x_dm0", "x_dh", "distmod">> \o PDm0),
   PIdent("x_scinv", "sigmacritinv", "eq", "ppb", XSc(XA, XB), XQ2("c_sigmacritinv", XA, XB), XDefaultScale, PNone, <<"x_da", "x_dh", "scinv", "kconst">>)
 >>
 
 \* Applicability and tolerance.  c = [api, p, a, b, n, vn] with n, vn the EFFECTIVE numbers of points.
 \* Units as in the catalogue; -1 = not demanded.  "To rounding": 4 ulp per operation, 4n + 4 for an n-point sum.
-PTol(name, c) ==
+\* everything about a case the tolerances depend on, computed once per case
+PFlags(c) ==
     LET p == c.p  a == c.a  b == c.b
-        le   == CRLe(a, b)
-        lt   == CRLt(a, b)
         phys == CPhysical(p, CRMax2(a, b))
-        fwd  == le /\ phys
-        cls  == c.api = "class"
+        fwd  == CRLe(a, b) /\ phys
+        ninv == CNormInv(p)
+    IN [le |-> CRLe(a, b), lt |-> CRLt(a, b), fwd |-> fwd, cls |-> c.api = "class", ninv |-> ninv,
         \* the C class can hold this cosmology (flat => omega_l = 1 - omega_m) and has the same numbers of points
-        cx   == fwd /\ CNormInv(p) /\ c.n = 5
-        cxv  == cx /\ c.vn = 10
+        cx |-> fwd /\ ninv /\ c.n = 5, cxv |-> fwd /\ ninv /\ c.n = 5 /\ c.vn = 10,
+        e2a |-> CRLt(CZero, CE2(p, a)), e2b |-> CRLt(CZero, CE2(p, b)),
+        conc |-> CConcordance(p), dlpos |-> CDlPositive(p, b), eds |-> ~CIsNone(CEds(p, a, b)), b1 |-> CRLe(b, COne)]
+PTolF(name, c, fl) ==
+    LET p == c.p  b == c.b
+        le == fl.le  lt == fl.lt  fwd == fl.fwd  cls == fl.cls  cx == fl.cx  cxv == fl.cxv
         when(q, t) == IF q THEN t ELSE CNA
     IN CASE name = "dh"       -> 4
-         [] name = "ezinv_a"  -> when(CRLt(CZero, CE2(p, a)), 16)
-         [] name = "ezinv_b"  -> when(CRLt(CZero, CE2(p, b)), 16)
+         [] name = "ezinv_a"  -> when(fl.e2a, 16)
+         [] name = "ezinv_b"  -> when(fl.e2b, 16)
          [] name = "gl"       -> when(fwd, 4 * c.n + 4)
          [] name = "gl_coarse" -> when(fwd, 1)
          [] name = "dc"       -> when(fwd, 4)
@@ -209,8 +227,11 @@ PTol(name, c) ==
          [] name = "dm_closed_lt_dc" -> when(fwd /\ lt /\ ~p.flat /\ p.ok[1] < 0, 0)
          [] name = "dm_sinh"  -> when(fwd /\ ~p.flat /\ p.ok[1] > 0, 32)
          [] name = "dm_sin"   -> when(fwd /\ ~p.flat /\ p.ok[1] < 0, 32)
+         [] name = "dm0_flat" -> when(fwd /\ p.flat, 4)
+         [] name = "dm0_sinh" -> when(fwd /\ ~p.flat /\ p.ok[1] > 0, 32)
+         [] name = "dm0_sin"  -> when(fwd /\ ~p.flat /\ p.ok[1] < 0, 32)
          \* the addition formula holds up to the truncation error of the rule: demanded for the documented default only
-         [] name = "hogg_add" -> when(fwd /\ CConcordance(p) /\ c.n = 5, IF CRLe(b, COne) THEN 3500 ELSE 3500000)
+         [] name = "hogg_add" -> when(fwd /\ fl.conc /\ c.n = 5, IF fl.b1 THEN 3500 ELSE 3500000)
          [] name = "da"       -> when(fwd, 4)
          [] name = "dl"       -> when(fwd, 8)                    \* Da (1+z2)^2: one operation more than the C class
          [] name = "dv"       -> when(fwd, 16)
@@ -218,43 +239,48 @@ PTol(name, c) ==
          [] name = "glv_coarse" -> when(fwd, 1)
          [] name = "glvx_flat"   -> when(fwd /\ p.flat, 10)
          [] name = "glvx_open"   -> when(fwd /\ ~p.flat /\ p.ok[1] > 0, 10)
-         [] name = "glvx_closed" -> when(fwd /\ ~p.flat /\ p.ok[1] < 0 /\ CDlPositive(p, b), 10)
-         [] name = "distmod"  -> when(fwd /\ b[1] > 0 /\ CDlPositive(p, b), 16)
-         [] name = "eds"      -> when(fwd /\ c.n = 5 /\ ~CIsNone(CEds(p, a, b)), IF CRLe(b, COne) THEN 1000 ELSE 1000000)
+         [] name = "glvx_closed" -> when(fwd /\ ~p.flat /\ p.ok[1] < 0 /\ fl.dlpos, 10)
+         [] name = "distmod"  -> when(fwd /\ b[1] > 0 /\ fl.dlpos, 16)
+         \* (Einstein-de Sitter: flat with omega_l = 1 - omega_m = 0; the functions also accept omega_k = 0 with another omega_l)
+         [] name = "eds"      -> when(fwd /\ c.n = 5 /\ fl.ninv /\ fl.eds, IF fl.b1 THEN 1000 ELSE 1000000)
          [] name = "scinv"    -> when(cls /\ fwd /\ lt, 16)
-         [] name = "scinv_zero" -> when(cls /\ CRLe(b, a), 0)
+         [] name = "scinv_zero" -> when(cls /\ ~lt, 0)
          [] name = "kconst"   -> when(cls, 500000)
          [] name = "k_kpc"    -> when(cls, 4)
          [] name = "k_gpc"    -> when(cls, 4)
          [] name = "x_dh"     -> when(cls, 4)
-         [] name = "x_ezinv"  -> when(fwd /\ CNormInv(p) /\ CRLt(CZero, CE2(p, b)), 8)
+         [] name = "x_ezinv"  -> when(fwd /\ fl.ninv /\ fl.e2b, 32)             \* each side within 16 of the exact E^2
          [] name = "x_int"    -> when(cx, 2)
          \* more points than the C class: both are within the documented accuracy of the default rule
-         [] name = "x_int_n"  -> when(fwd /\ CNormInv(p) /\ c.n > 5 /\ CConcordance(p) /\ CRLe(b, COne), 3500)
+         [] name = "x_int_n"  -> when(fwd /\ fl.ninv /\ c.n > 5 /\ fl.conc /\ fl.b1, 3500)
          [] name = "x_dc"     -> when(cx, 2)
          [] name = "x_dm"     -> when(cx, 4)
+         [] name = "x_dm0"    -> when(cx, 4)
          [] name = "x_da"     -> when(cx, 4)
          [] name = "x_dl"     -> when(cx, 4)
          [] name = "x_dv"     -> when(cx, 8)
          [] name = "x_v"      -> when(cxv, 10)
-         [] name = "x_distmod" -> when(cls /\ cx /\ b[1] > 0 /\ CDlPositive(p, b), 4)
+         [] name = "x_distmod" -> when(cls /\ cx /\ b[1] > 0 /\ fl.dlpos, 4)
          [] name = "x_scinv"  -> when(cls /\ cx /\ lt, 10)
          [] OTHER -> CNA
+PTol(name, c) == PTolF(name, c, PFlags(c))
 
-PNames(n, vn) == LET C == PCatalogue(n, vn) IN [i \in 1..Len(C) |-> C[i].name]
+\* names, relations, alternatives and prerequisites do not depend on the numbers of points
+PCatSym == PCatalogue("npts", "vnpts")
 PById(C, nm) == C[CHOOSE i \in 1..Len(C) : C[i].name = nm]
 \* what the harness has to evaluate: the demanded identities and their accepted alternatives
 PNeeded(c) ==
-    LET C    == PCatalogue(c.n, c.vn)
-        dem  == {i \in 1..Len(C) : PTol(C[i].name, c) >= 0}
+    LET C    == PCatSym
+        fl   == PFlags(c)
+        dem  == {i \in 1..Len(C) : PTolF(C[i].name, c, fl) >= 0}
         alts == UNION {VRange(C[i].alts) : i \in dem}
         idx  == VSortSet(dem \cup {i \in 1..Len(C) : C[i].name \in alts})
     IN [k \in 1..Len(idx) |-> C[idx[k]].name]
 
 \* one recorded residual o = <<units, sign>>: units >= 0 a finite residual; -1 a side is not a finite number;
 \* -2 not evaluated because a call of the real code raised (r.rejected says which)
-PSat(C, c, nm, res) ==
-    LET id == PById(C, nm)  tol == PTol(nm, c)
+PSat(C, c, fl, nm, res) ==
+    LET id == PById(C, nm)  tol == PTolF(nm, c, fl)
         good(x) == x \in DOMAIN res /\ CResidualOK(PById(C, x), tol, res[x])
     IN good(nm) \/ \E x \in VRange(id.alts) : good(x)
 PUnits(res, nm) == IF nm \in DOMAIN res THEN res[nm][1] ELSE -1
@@ -265,9 +291,10 @@ PFailScalar(r) ==
     IF pf # {} THEN pf
     ELSE LET p == PNormalise(r.api, r.args)[PReading(r.api, r.args, r.rep)]
              c == [api |-> r.api, p |-> p, a |-> r.a, b |-> r.b, n |-> PNpts(r.n), vn |-> PVnpts(r.vn)]
-             C == PCatalogue(c.n, c.vn)
-             dem  == {C[i].name : i \in {j \in 1..Len(C) : PTol(C[j].name, c) >= 0}}
-             bad  == {nm \in dem : ~PSat(C, c, nm, r.res)}
+             C == PCatSym
+             fl == PFlags(c)
+             dem  == {C[i].name : i \in {j \in 1..Len(C) : PTolF(C[j].name, c, fl) >= 0}}
+             bad  == {nm \in dem : ~PSat(C, c, fl, nm, r.res)}
              \* a demanded identity that could not be evaluated
              rej  == {nm \in bad : PUnits(r.res, nm) = -2}
              nonf == {nm \in bad : PUnits(r.res, nm) = -1 /\ PById(C, nm).rel = "eq"}
@@ -295,7 +322,8 @@ PDispatchSet(sa, sb) ==
     (IF PSoft(sa) \/ PSoft(sb) THEN {[kind |-> "rejected", pairs |-> <<>>]} ELSE {})
 
 \* r = [api, q, sa, sb, pairs, obs = [kind, len, eq : Seq(BOOLEAN)]]
-\* eq[i]: result element i equals (4 ulp) the two-scalar call on the VALUES pairs[i] points at
+\* eq[i]: result element i equals the two-scalar call on the VALUES pairs[i] points at, to rounding (4 ulp; in the
+\* precision of a float32 argument where there is one: the documentation does not promise double precision then)
 PFailDispatch(r) ==
     LET A    == PDispatchSet(r.sa, r.sb)
         live == {e \in A : e.kind # "rejected"}
@@ -366,8 +394,9 @@ PUnsigned(f) ==
          IN IF ip = <<>> \/ (dots # {} /\ fp = <<>>) \/ Len(ip) > 4 \/ Len(fp) > 3 THEN PBadNum
             ELSE [ok |-> TRUE, val |-> CRAdd(<<PIntVal(ip), 1>>, RNorm(PIntVal(fp), PPow10(Len(fp))))]
 PSixty == <<60, 1>>
-\* c = [fn |-> "dec" | "ra", hours : BOOLEAN, chars]  ->  [cands : Seq(rational), err_ok, any]
+\* c = [fn |-> "dec" | "ra", hours : BOOLEAN, chars]  ->  [cands : Seq(rational), scale, err_ok, any]
 \*   cands  the values (degrees) the documentation allows;  err_ok  an exception is allowed as well;
+\*   scale  the operand scale |D| + M/60 + S/3600 (x 15) rounding is relative to (a signed leading field may cancel);
 \*   any    the string is outside the documented syntax: nothing is demanded
 PParseSpec(c) ==
     LET fs   == PSplit(c.chars)
@@ -375,7 +404,7 @@ PParseSpec(c) ==
         sg   == IF f1 # <<>> /\ f1[1] \in {"-", "+"} THEN f1[1] ELSE ""
         b1   == IF sg = "" THEN f1 ELSE Tail(f1)
         nums == [i \in 1..Len(fs) |-> PUnsigned(IF i = 1 THEN b1 ELSE fs[i])]
-        wild == [cands |-> <<>>, err_ok |-> TRUE, any |-> TRUE]
+        wild == [cands |-> <<>>, scale |-> CZero, err_ok |-> TRUE, any |-> TRUE]
     IN IF Len(fs) > 3 \/ \E i \in DOMAIN nums : ~nums[i].ok THEN wild
        ELSE LET D == nums[1].val
                 M == IF Len(fs) >= 2 THEN nums[2].val ELSE CZero
@@ -385,17 +414,17 @@ PParseSpec(c) ==
                 k    == IF c.fn = "ra" /\ c.hours THEN <<15, 1>> ELSE COne
                 soft == sg = "+" \/ ~CRLt(M, PSixty) \/ ~CRLt(S, PSixty)      \* silent: '+', minutes / seconds >= 60
             IN IF c.fn = "dec"
-               THEN [cands |-> <<IF sg = "-" THEN CRNeg(mag) ELSE mag>>, err_ok |-> soft, any |-> FALSE]
+               THEN [cands |-> <<IF sg = "-" THEN CRNeg(mag) ELSE mag>>, scale |-> mag, err_ok |-> soft, any |-> FALSE]
                ELSE IF sg = "-"          \* a signed right ascension is not documented: the sign of the leading field
                                          \* only, the sign of the whole value, or a rejection
-               THEN [cands |-> <<CRMul(k, CRAdd(CRNeg(D), frac)), CRMul(k, CRNeg(mag))>>, err_ok |-> TRUE, any |-> FALSE]
-               ELSE [cands |-> <<CRMul(k, mag)>>, err_ok |-> soft, any |-> FALSE]
-PParseTol == 8          \* ulp of |value|: two divisions, two additions, the sign / the factor 15
-\* r = [c, cands (as the harness used them), obs = [err, res : Seq(<<units, sign>>)]]  res[i]: residual against cands[i]
+               THEN [cands |-> <<CRMul(k, CRAdd(CRNeg(D), frac)), CRMul(k, CRNeg(mag))>>, scale |-> CRMul(k, mag), err_ok |-> TRUE, any |-> FALSE]
+               ELSE [cands |-> <<CRMul(k, mag)>>, scale |-> CRMul(k, mag), err_ok |-> soft, any |-> FALSE]
+PParseTol == 8          \* ulp of the operand scale: two divisions, two additions, the sign / the factor 15
+\* r = [c, cands, scale (as the harness used them), obs = [err, res : Seq(<<units, sign>>)]]  res[i]: residual against cands[i]
 PFailParse(r) ==
     LET s == PParseSpec(r.c) IN
     IF s.any THEN {}
-    ELSE IF r.cands # s.cands THEN {"harness_cands_mismatch"}
+    ELSE IF r.cands # s.cands \/ r.scale # s.scale THEN {"harness_cands_mismatch"}
     ELSE IF r.obs.err # "none" THEN (IF s.err_ok THEN {} ELSE {"documented_string_rejected"})
     ELSE IF Len(r.obs.res) # Len(s.cands) THEN {"harness_cands_mismatch"}
     ELSE IF \E i \in DOMAIN r.obs.res : r.obs.res[i][1] >= 0 /\ r.obs.res[i][1] <= PParseTol THEN {} ELSE {"parsed_value"}
@@ -405,16 +434,17 @@ PLats == {-90, -30, 0, 30, 90}
 PSinDeg(lat) == CASE lat = -90 -> <<-1, 1>> [] lat = -30 -> <<-1, 2>> [] lat = 0 -> CZero [] lat = 30 -> <<1, 2>> [] lat = 90 -> COne
 \* area * pi / 180 (an exact rational); c = [lon1, lon2, lat1, lat2] integers (degrees)
 PAreaQ(c) == CRAbs(CRMul(CRSub(PSinDeg(c.lat2), PSinDeg(c.lat1)), <<c.lon2 - c.lon1, 1>>))
+PAreaScale(c) == CRMul(CRAdd(CRAbs(PSinDeg(c.lat1)), CRAbs(PSinDeg(c.lat2))), <<VAbs(c.lon2 - c.lon1), 1>>)
 PAreaTol == 16
-\* r = [c, exp (as used by the harness), obs = [err, val : <<units, sign>> against exp * 180/pi (ulp of the operand scale
-\*      (|sin lat1| + |sin lat2|) |lon2 - lon1| 180/pi), lon_add, lat_add, mirror, swap : residuals of the laws
+\* r = [c, exp, scale (as used by the harness), obs = [err, val : <<units, sign>> against exp * 180/pi (ulp of the operand scale
+\*      (|sin lat1| + |sin lat2|) |lon2 - lon1| 180/pi; ulp of binary32 when the arguments are float32: numpy then computes in single precision), lon_add, lat_add, mirror, swap : residuals of the laws
 \*      area(lon1..lon2) = area(lon1..m) + area(m..lon2), the same in latitude, area(-lat2..-lat1) = area, and
 \*      area with min/max of the SAME axis exchanged (the docstring names them min and max: demanded for min <= max only)]]
 PFailArea(r) ==
     LET ordered == r.c.lon1 <= r.c.lon2 /\ r.c.lat1 <= r.c.lat2
         ok(o) == o[1] >= 0 /\ o[1] <= PAreaTol
     IN IF ~ordered THEN {}
-       ELSE IF r.exp # PAreaQ(r.c) THEN {"harness_area_mismatch"}
+       ELSE IF r.exp # PAreaQ(r.c) \/ r.scale # PAreaScale(r.c) THEN {"harness_area_mismatch"}
        ELSE IF r.obs.err # "none" THEN {"unexpected_rejection"}
        ELSE (IF ok(r.obs.val) THEN {} ELSE {"area_value"}) \cup
             (IF ok(r.obs.lon_add) THEN {} ELSE {"area_additive_in_longitude"}) \cup
